@@ -71,11 +71,14 @@ package environment
 //@ closure newEnvironment "after_event"
 //@   property C08 C09 C10
 //@   ghostvar phase int = 0
+//@   ghostvar isStop bool = e.Event == "STOP_ACTIVITY"
+//@   ghostvar rnDropped bool = false
 //@   on call (*Environment).handleHooksWithNegativeWeights : assert phase == 0 ; phase = 1
 //@   on call .SetRuntimeVar : assert phase == 1
 //@   on call (*Environment).handleHooksWithPositiveWeights : assert phase == 1 ; phase = 2
-//@   on store environment.Environment.currentRunNumber : assert phase == 2 && value == 0
+//@   on store environment.Environment.currentRunNumber : assert phase == 2 && value == 0 && isStop ; rnDropped = true
 //@   ensures phase == 2
+//@   ensures isStop ==> rnDropped
 
 // The three hook entry points select weights by sign: negative, non-negative, all.
 //@ closure (*Environment).handleHooksWithNegativeWeights #1
@@ -105,6 +108,7 @@ package environment
 //@   on call (*Environment).runTasksAsHooks : assert tasksAt <= #i ; tasksAt = #i + 1
 //@   on aftercall .GetTraits : lastCrit = result.Critical
 //@   on call append when argtype0 == "[]error" : assert lastCrit
+//@   on call delete : assert argtype0 == "callable.CallsMap" && awaitedAt == #i + 1
 //@   loop 3 invariant #i >= -1 && #i < len(allWeights) && sortedW(allWeights) && sortedW(filteredWeights) && fresh(filteredWeights)
 //@   loop 3 invariant len(filteredWeights) > 0 ==> #i >= 0 && filteredWeights[len(filteredWeights) - 1] <= allWeights[#i]
 //@   loop 4 invariant #i >= -1 && awaitedAt <= #i && tasksAt <= #i && sortedW(filteredWeights) && fresh(filteredWeights)
@@ -166,7 +170,7 @@ package environment
 //@   property C01
 // Teardown runs under the environment's transitionMutex (so it is serialised with transitions) and forces DONE only there.
 //@ func (envs *Manager) TeardownEnvironment(environmentId uid.ID, force bool) (err error)
-//@   property C01 C06
+//@   property C01 C06 C10
 //@   ghostvar held bool = false
 //@   ghostvar willUnlock bool = false
 //@   ghostvar doneSet bool = false
@@ -176,7 +180,18 @@ package environment
 //@   on call (*sync.RWMutex).Unlock when recvfield == "transitionMutex" : held = false
 //@   on call (*Environment).setState : assert held && willUnlock && arg1 == "DONE" && !doneSet ; doneSet = true
 //@   on call (*Manager).cancelCallsPendingAwait : assert held
+//@   on call (*Environment).CurrentState : assert held && willUnlock
 //@   ensures err == nil ==> doneSet
+//   C10: teardown while RUNNING examines both end timestamps independently and sets each only if still empty
+//@   ghostvar sawEndGet bool = false
+//@   ghostvar sawCompGet bool = false
+//@   ghostvar endEmpty bool = false
+//@   ghostvar compEmpty bool = false
+//@   on aftercall .Get when arg0 == "run_end_time_ms" : sawEndGet = true ; endEmpty = (result1 && result0 == "")
+//@   on aftercall .Get when arg0 == "run_end_completion_time_ms" : sawCompGet = true ; compEmpty = (result1 && result0 == "")
+//@   on call .SetRuntimeVar when arg0 == "run_end_time_ms" : assert sawEndGet && endEmpty
+//@   on call .SetRuntimeVar when arg0 == "run_end_completion_time_ms" : assert sawCompGet && compEmpty
+//@   ensures sawEndGet ==> sawCompGet
 
 //@ closure (*Environment).subscribeToWfState #1#1
 //@   property C01 C03
